@@ -16,7 +16,9 @@ func (tb *tokenBucket) adjustOnFailure(statusCode int) {
 	// For rate limiting errors, impose a penalty period.
 	case statusCode == 429 || statusCode == 403 || statusCode == 408 || statusCode == 425:
 		tb.failureCount++
-		penalty := min(time.Duration(float64(basePenaltyDuration)*math.Pow(2, float64(tb.failureCount-1))), maxPenaltyDuration)
+		// Cap the exponent: past a few doublings the penalty is maxPenaltyDuration anyway, and an
+		// unbounded exponent overflows time.Duration (no penalty at all from the 32nd failure on).
+		penalty := min(time.Duration(float64(basePenaltyDuration)*math.Pow(2, float64(min(tb.failureCount-1, 16)))), maxPenaltyDuration)
 		tb.penaltyUntil = now.Add(penalty)
 		// Optionally, clear tokens to prevent immediate further requests.
 		tb.tokens = 0
